@@ -64,6 +64,70 @@ InvNoDoubleBlank == done => \A w \in 0..MaxW : \A i \in 1..Len(Out(w)) :
 InvIndentUnit   == done => \A w \in 0..MaxW : \A i \in 1..Len(Out(w)) :
                               Out(w)[i] = "" \/ (LTrimPosS(Out(w)[i], 1) - 1) % Unit = 0
 InvHygiene      == done => \A w \in 0..MaxW : \A i \in 1..Len(Out(w)) : Out(w)[i] = "" \/ ~EndsWithS(Out(w)[i], " ")
+(* Model-level convergence: the rendered array `#(<chain>, z9)` tokenised back into the chain's child events and
+   laid out again at the same width.  The chain is everything between "#(" and the last "," . *)
+OpdSet == {OpdTxt(k) : k \in 1..4}
+OpSet == {"==", "!="}
+CmtB == {BcTxt(k) : k \in 1..3}
+CmtL == {LcTxt(k) : k \in 1..3}
+TokSet == OpdSet \cup OpSet \cup CmtB \cup CmtL \cup {"#", "(", ")", ",", "z9"}
+RECURSIVE LexLine(_, _, _)
+LexLine(s, i, acc) ==
+  IF i > Len(s) THEN acc
+  ELSE IF SubSeq(s, i, i) = " "
+       THEN LexLine(s, i + 1, IF acc # <<>> /\ acc[Len(acc)] # " " THEN Append(acc, " ") ELSE acc)
+       ELSE LET cand == {t \in TokSet : StartsAt(s, t, i)}
+                m == CHOOSE t \in cand : \A u \in cand : Len(u) <= Len(t)
+            IN LexLine(s, i + Len(m), Append(acc, m))
+TokEvent(t) == IF t = " " THEN [e |-> "sp"]
+               ELSE IF t \in OpdSet THEN [e |-> "opd", txt |-> t]
+               ELSE IF t \in OpSet THEN [e |-> "op", txt |-> t]
+               ELSE IF t \in CmtB THEN [e |-> "bc", txt |-> t]
+               ELSE IF t \in CmtL THEN [e |-> "lc", txt |-> t]
+               ELSE [e |-> "delim", txt |-> t]
+RECURSIVE LexLines(_, _, _, _)
+LexLines(ls, k, acc, pend) ==
+  IF k > Len(ls) THEN acc
+  ELSE LET toks == LexLine(ls[k], 1, <<>>)
+           evs == [j \in 1..Len(toks) |-> TokEvent(toks[j])]
+       IN IF toks = <<>> THEN LexLines(ls, k + 1, acc, pend + 1)
+          ELSE LexLines(ls, k + 1, (IF acc # <<>> /\ pend > 0 THEN Append(acc, [e |-> "nl", n |-> 1]) ELSE acc) \o evs, 1)
+IsDelim(x, t) == x.e = "delim" /\ x.txt = t
+(* the chain part: from the first operand to the last operand before the array's last comma *)
+RelexChain(ls) ==
+  LET all == LexLines(ls, 1, <<>>, 0)
+      commas == {i \in 1..Len(all) : IsDelim(all[i], ",")}
+      lastComma == CHOOSE i \in commas : \A j \in commas : j <= i      \* the separator before z9 (or the trailing comma)
+      z == CHOOSE i \in 1..Len(all) : IsDelim(all[i], "z9")
+      sepComma == CHOOSE i \in commas : i < z /\ \A j \in commas : j < z => j <= i
+      opds == {i \in 1..(sepComma - 1) : all[i].e = "opd"}
+      first == CHOOSE i \in opds : \A j \in opds : i <= j
+      last == CHOOSE i \in opds : \A j \in opds : j <= i
+  IN SubSeq(all, first, last)
+(* trivia between the last operand and the comma belongs to the array, not to the chain: the second layout is
+   compared on the chain's own lines only when there is none — i.e. for chains whose last operand is directly
+   followed by the separator in the first layout *)
+TrailingTrivia(ls) ==
+  LET all == LexLines(ls, 1, <<>>, 0)
+      z == CHOOSE i \in 1..Len(all) : IsDelim(all[i], "z9")
+      commas == {i \in 1..Len(all) : IsDelim(all[i], ",") /\ i < z}
+      sepComma == CHOOSE i \in commas : \A j \in commas : j <= i
+      opds == {i \in 1..(sepComma - 1) : all[i].e = "opd"}
+      last == CHOOSE i \in opds : \A j \in opds : j <= i
+  IN last + 1 # sepComma
+OutOfChain(sq, w) ==
+  LET arr == << [e |-> "item", txt |-> "", doc |-> ChainDoc(sq, Unit)], [e |-> "comma"], [e |-> "sp"], [e |-> "item", txt |-> "z9"] >>
+  IN Format(Whole(ListDoc(ArrCfg, arr)), w)
+(* the re-lexed array may be broken (flavor = never) where the source array was not; convergence of the whole is
+   the real code's business (R03 on these behaviours); at model level the chain itself must be re-laid out the same
+   whenever the array stayed on the chain's lines: compare only when the first layout did not break the array *)
+ArrayFlat(ls) == \E i \in 1..Len(ls) : Occurs(ls[i], ", z9)") # {}
+InvConvergence == done => \A w \in 0..MaxW :
+                     (ArrayFlat(Out(w)) /\ ~TrailingTrivia(Out(w))) => OutOfChain(RelexChain(Out(w)), w) = Out(w)
+
+(* reachability probe for the antecedent of InvConvergence (must be VIOLATED: bin/selftest) *)
+ProbeConvergenceVacuous == done => \A w \in 0..MaxW : ~(ArrayFlat(Out(w)) /\ ~TrailingTrivia(Out(w)))
+
 Gen == (done /\ GenOn) => PrintT(<<"GEN", ToJson([inst |-> "chain", unit |-> Unit, seq |-> seq,
                                                  pred |-> [w \in 0..MaxW |-> Out(w)]])>>)
 =============================================================================
